@@ -375,6 +375,12 @@ class ServerFacts:
 
         def run(body, env, st):
             for stt in body:
+                if st.get("_stopped"):
+                    return st
+                if isinstance(stt, (ast.Continue, ast.Break, ast.Return)):
+                    # the rest of the branch is not executed for this verb
+                    st["_stopped"] = True
+                    return st
                 if isinstance(stt, ast.Assign) and len(stt.targets) == 1 and offs_attr(stt.targets[0]):
                     tgt = offs_attr(stt.targets[0])
                     if isinstance(stt.value, ast.Constant) and stt.value.value == 0:
